@@ -23,6 +23,7 @@ type sample struct {
 	Events []string          `json:"events"`
 	Path   []string          `json:"path,omitempty"`
 	Pinned bool              `json:"crc_pinned"`
+	OSTrace []string         `json:"os_trace,omitempty"`
 }
 
 type result struct {
@@ -251,7 +252,7 @@ func (m *Machine) samplePath() (sample, bool) {
 	}
 	model := m.solver.Values(m.vars)
 	model, pinned := m.pinSums(model)
-	s := sample{Inputs: model, Events: m.eventStrings(model, -1), Pinned: pinned}
+	s := sample{Inputs: model, Events: m.eventStrings(model, -1), Pinned: pinned, OSTrace: append([]string(nil), m.fsEvents...)}
 	for _, d := range m.trace {
 		if d.forked {
 			s.Path = append(s.Path, fmt.Sprintf("%s=%d", d.what, d.chosen))
@@ -282,6 +283,8 @@ func (m *Machine) runPath(hp *ssa.Package, fn *ssa.Function, res *result) (compl
 	m.schedMode = false
 	m.schedTrace = nil
 	m.fsEvents = nil
+	m.osst = nil
+	m.osEvents = nil
 	m.clock = 0
 	m.liveGo = 0
 	m.recycleBig()
